@@ -541,6 +541,12 @@ def run(model: RepoModel, rep, tier: str):
                 if isinstance(cl.func, ast.Attribute) and is_self_attr(cl.func) and cl.func.attr == "new_bundle_id":
                     newid_nodes.append(n)
         key = f"{FILE}::{f.qualname}::write -> re-point -> clear"
+        if not clear_nodes and write_nodes:
+            rep.violation("C15.R2", key, FILE, f.node.lineno,
+                          f"{f.qualname} writes the active bundle to a file but never empties `self.{active_attr}`: the items stay active, so the next "
+                          f"export writes them AGAIN into the next bundle file -- after a spill (more than MAX_ROWS rows) every unit of the first bundle is "
+                          f"duplicated in the second, with the same ids")
+            continue
         if not clear_nodes:
             rep.unknown("C15.R2", key, FILE, f.node.lineno, "export does not clear the active bundle in a recognised way")
             continue
@@ -881,7 +887,8 @@ def run(model: RepoModel, rep, tier: str):
                             reports = True
                         if isinstance(x, ast.Call):
                             cn = call_name(x) or ""
-                            if cn in ("print", "util.error", "util.warn", "util.error_and_quit", "util.debug", "logging.error",
+                            # util.debug prints only when the debug flag is set: not a report
+                            if cn in ("print", "util.error", "util.warn", "util.error_and_quit", "logging.error",
                                       "traceback.print_exc", "sys.exit") or cn.endswith(".error") or cn.endswith(".warn") \
                                     or cn.endswith(".exception"):
                                 reports = True
